@@ -4,11 +4,17 @@ import (
 	"context"
 	"encoding/json"
 	"fmt"
+	"io"
 	"net/http"
+	"net/http/cookiejar"
 	"net/http/httptest"
 	"net/url"
+	"os"
+	"path/filepath"
 	"strings"
 	"time"
+
+	"golang.org/x/oauth2"
 
 	"github.com/bolkedebruin/rdpgw/cmd/rdpgw/identity"
 	"github.com/bolkedebruin/rdpgw/cmd/rdpgw/protocol"
@@ -69,7 +75,7 @@ func runC12(r *Run) {
 	gwURL, _ := url.Parse("https://gw.example.com:443/callback")
 	issuer := "query-issuer"
 	modes := []string{"roundrobin", "unsigned", "any", "signed", ""}
-	hostSets := [][]string{{"10.0.0.1:3389"}, {"10.0.0.1:3389", "rdp.example.com:3389"}, {"host-" + placeholder + ".corp:3389"}, {"10.0.0.1:3389", "pc-" + placeholder + ":3390", "10.0.0.9:3389"}, {placeholder + ":3389"}}
+	hostSets := [][]string{{"RDS01.Corp.example.com:3389"}, {"Desktop-" + placeholder + ".Corp:3390", "10.0.0.1:3389"}, {"10.0.0.1:3389"}, {"10.0.0.1:3389", "rdp.example.com:3389"}, {"host-" + placeholder + ".corp:3389"}, {"10.0.0.1:3389", "pc-" + placeholder + ":3390", "10.0.0.9:3389"}, {placeholder + ":3389"}}
 	users := []string{"alice", "bob@example.com", "carol@CORP@x", "d", "ü.ser@dom"}
 	tmpls := []string{"", "", "{{ username }}", "CORP\\{{ username }}", "{{ username }}@corp", "fixed-name", "{{ token }}:{{ username }}"}
 	n := r.N(2000, 60000)
@@ -342,8 +348,81 @@ func runC12(r *Run) {
 			}
 		}
 	}
+	c12Roaming(r, idp, &oauthCfg, verifier, gwURL)
 	r.extra["model_disagreements"] = drift
 	if drift > 0 && !r.HasViolation() {
 		r.Unproven(fmt.Sprintf("correspondence Download.download = HandleDownload broke on %d cases with no policy, claim or acceptance failure found", drift), first)
+	}
+}
+
+// c12Roaming: the whole chain EnrichContext → Authenticated → HandleCallback / HandleDownload with
+// a session store: a browser logs in from one address and asks for files from others. Each file's
+// token must name the address of the request that asked for it (theorem C04.mint_records), not the
+// address of the login or of an earlier download.
+func c12Roaming(r *Run, idp *fakeIdP, oauthCfg *oauth2.Config, verifier *oidc.IDTokenVerifier, gwURL *url.URL) {
+	dir := filepath.Join(verifRoot, "work", fmt.Sprintf("c12-sessions-%d", os.Getpid()))
+	os.MkdirAll(dir, 0o700)
+	defer os.RemoveAll(dir)
+	oldTmp := os.Getenv("TMPDIR")
+	os.Setenv("TMPDIR", dir)
+	defer os.Setenv("TMPDIR", oldTmp)
+	n := 0
+	for _, store := range []string{"cookie", "file"} {
+		web.InitStore([]byte("0123456789abcdef0123456789abcdef"), []byte("fedcba9876543210fedcba9876543210"), store, 0)
+		o := (&web.OIDCConfig{OAuth2Config: oauthCfg, OIDCTokenVerifier: verifier}).New()
+		h := (&web.Config{PAATokenGenerator: security.GeneratePAAToken, Hosts: []string{"10.0.0.1:3389"}, HostSelection: "roundrobin", GatewayAddress: gwURL}).NewHandler()
+		mux := http.NewServeMux()
+		mux.Handle("/connect", o.Authenticated(http.HandlerFunc(h.HandleDownload)))
+		mux.HandleFunc("/callback", o.HandleCallback)
+		srv := httptest.NewServer(web.EnrichContext(mux))
+		for _, route := range [][]string{{"192.0.2.10", "198.51.100.7", "192.0.2.10", "198.51.100.7"}, {"2001:db8::1", "2001:db8::1", "203.0.113.5"}, {"10.1.1.1, 10.0.0.254", "10.1.1.2, 10.0.0.254", "10.1.1.1"}} {
+			n++
+			jar, _ := cookiejar.New(nil)
+			cl := &http.Client{Jar: jar, CheckRedirect: func(*http.Request, []*http.Request) error { return http.ErrUseLastResponse }, Timeout: 10 * time.Second}
+			get := func(u, xff string) (int, string, string) {
+				req, _ := http.NewRequest("GET", u, nil)
+				req.Header.Set("X-Forwarded-For", xff)
+				resp, err := cl.Do(req)
+				if err != nil {
+					return -1, err.Error(), ""
+				}
+				defer resp.Body.Close()
+				b, _ := io.ReadAll(resp.Body)
+				return resp.StatusCode, string(b), resp.Header.Get("Location")
+			}
+			login := route[0]
+			st, _, loc := get(srv.URL+"/connect", login)
+			lu, err := url.Parse(loc)
+			if st != 302 || err != nil || lu.Query().Get("state") == "" {
+				r.Inconclusive()
+				continue
+			}
+			code, at := fmt.Sprintf("c12-code-%d", n), fmt.Sprintf("at-c12-roam-%d", n)
+			idp.setToken(at, "ok:alice")
+			idp.mu.Lock()
+			idp.codes[code] = codeResp{accessToken: at, idToken: idp.idToken(idp.stdClaims(map[string]interface{}{"preferred_username": "alice"}), nil)}
+			idp.mu.Unlock()
+			if st, _, _ := get(srv.URL+"/callback?state="+url.QueryEscape(lu.Query().Get("state"))+"&code="+code, login); st != 302 {
+				r.Inconclusive()
+				continue
+			}
+			for k, addr := range route[1:] {
+				st, body, _ := get(srv.URL+"/connect", addr)
+				r.Count(fmt.Sprintf("roaming:%s:%d:%d", store, n, k))
+				r.Dist("roaming:" + store)
+				if st != 200 {
+					r.Violation("c12-roaming-refused", "a logged-in session does not get a connection file from another address", fmt.Sprintf("session store %s; login from %q; download %d from %q: status %d\n", store, login, k+1, addr, st))
+					continue
+				}
+				cl := jwtPayload(rdpLines(body)["gatewayaccesstoken"])
+				want := strings.TrimSpace(strings.Split(addr, ",")[0])
+				got, _ := cl["clientIp"].(string)
+				if got != want {
+					r.Violation("c12-claims", "the token's claims are not exactly the file's host, the session's user name, the requesting address and the session's access token",
+						fmt.Sprintf("session store %s; login from X-Forwarded-For %q; downloads from %q; download %d was requested from %q but its token names client address %q\n", store, login, route[1:], k+1, addr, got))
+				}
+			}
+		}
+		srv.Close()
 	}
 }
